@@ -800,6 +800,31 @@ impl<'tcx> Cx<'tcx> {
                 rec.push_str(",\"preds\":");
                 self.predicates(did, &mut rec);
             }
+            {
+                // generic parameter names (types and consts, parents first; lifetimes skipped, as in "ga")
+                let mut names: Vec<String> = Vec::new();
+                let mut chain = Vec::new();
+                let mut cur = Some(tcx.generics_of(did));
+                while let Some(g) = cur {
+                    chain.push(g);
+                    cur = g.parent.map(|p| tcx.generics_of(p));
+                }
+                for g in chain.iter().rev() {
+                    for p in g.own_params.iter() {
+                        if !matches!(p.kind, ty::GenericParamDefKind::Lifetime) {
+                            names.push(p.name.to_string());
+                        }
+                    }
+                }
+                rec.push_str(",\"generics\":[");
+                for (i, n) in names.iter().enumerate() {
+                    if i > 0 {
+                        rec.push(',');
+                    }
+                    esc(n, &mut rec);
+                }
+                rec.push(']');
+            }
             if let Some(imp) = tcx.impl_of_assoc(did) {
                 rec.push_str(",\"impl\":");
                 self.impl_info(imp, &mut rec);
